@@ -210,6 +210,9 @@ def queries(tier, seed):
         env.check(len(pkts) == 1, "canary")  # false for requests / expired messages
 
     qs.append(Query("canary:filter", canary, canary=True))
+    from checks import gwfix
+
+    qs += gwfix.queries(tier)
     only = os.environ.get("C16_ONLY")
     if only:
         qs = [q for q in qs if only in q.name or q.canary]
@@ -219,6 +222,10 @@ def queries(tier, seed):
 def replay(item):
     common.plain_imports()
     prm, cex, label = item["params"], item["cex"], item["label"]
+    if prm["h"] == "gwfix":
+        from checks import gwfix
+
+        return gwfix.replay(item)
     if prm["h"] == "format":
         from ramses_tx import exceptions as exc
         from ramses_tx.packet import Packet
